@@ -2,6 +2,7 @@ CONSTANT N = 2
 CONSTANT Universe <- UEmitted
 CONSTANT MaxSteps = 12
 CONSTANT Thresholds = {0, 1, 2, 100}
+CONSTANT MaxBatch = 2
 CONSTANT FeedModes = {TRUE, FALSE}
 SPECIFICATION Spec
 INVARIANT BehaviourExport
